@@ -1,0 +1,46 @@
+//go:build verif
+
+package syncer
+
+import (
+	"context"
+
+	"github.com/PowerDNS/lightningstream/lmdbenv/header"
+	"github.com/PowerDNS/lightningstream/snapshot"
+	"github.com/PowerDNS/lightningstream/syncer/cleaner"
+	"github.com/PowerDNS/lmdb-go/lmdb"
+)
+
+// Exported wrappers for external verification harnesses (verif tag only).
+
+func (s *Syncer) VerifMainToShadow(ctx context.Context, txn *lmdb.Txn, ts header.Timestamp) error {
+	return s.mainToShadow(ctx, txn, ts)
+}
+
+func (s *Syncer) VerifShadowToMain(ctx context.Context, txn *lmdb.Txn) error {
+	return s.shadowToMain(ctx, txn)
+}
+
+func (s *Syncer) VerifCleaner() *cleaner.Worker {
+	return s.cleaner
+}
+
+func (s *Syncer) VerifInstanceID() string {
+	return s.instanceID()
+}
+
+func VerifDupSortHackEncodeOne(e snapshot.KV) (snapshot.KV, error) {
+	return dupSortHackEncodeOne(e)
+}
+
+func VerifDupSortHackDecodeOne(e snapshot.KV) (snapshot.KV, error) {
+	return dupSortHackDecodeOne(e)
+}
+
+func VerifDupSortHackEncode(d *snapshot.DBI) (*snapshot.DBI, error) {
+	return dupSortHackEncode(d)
+}
+
+func VerifDupSortHackDecode(d *snapshot.DBI) (*snapshot.DBI, error) {
+	return dupSortHackDecode(d)
+}
